@@ -30,7 +30,12 @@ RULE = ('a scene = non-square image (6..40 x 6..60) + zenithal header (5 project
         '= unrestricted run filtered by the region the user named, else the sibling region under --autoload, else '
         'unfiltered.  Big islands (1100 ... 14000 pixels: blobs, thick bars, L, rings; beyond any internal block size) '
         'with regions that cover only the cells under their first / last row(s) or column(s), at find_islands level and, '
-        'for 1100-3000 pixel sources, through find_sources_in_image.  An evaluation = one restricted find_islands call judged against the '
+        'for 1100-3000 pixel sources, through find_sources_in_image.  Images whose pixel grid partly falls off the '
+        'projection (all-sky AIT/MOL, SIN beyond the horizon, ZEA/ARC beyond the antipode; GridWCS oracle of C10, checked '
+        'against astropy per header) with islands on the rim of the sky, regions = NCP / SCP caps, whole sky, whole sky '
+        'minus the cells of one island, ...: a pixel without sky position is inside no region.  Near-extreme regions '
+        'through find_sources_in_image (Region object, .mim file) and the CLI: whole sky minus a hole of 0.05-3 deg^2 '
+        'around one or two islands at depths 6-8, and the complement.  An evaluation = one restricted find_islands call judged against the '
         'filtered unrestricted call (or one restricted/unrestricted pair of find_sources_in_image runs); non-trivial '
         '= at least one unrestricted island with a determined keep/drop status; distinct = distinct (image, header, '
         'region cell set) hashes within a case, cases with equal hash counted once')
@@ -61,7 +66,15 @@ MIN_COUNTERS = {'restricted_calls_judged': 1000, 'islands_kept': 300, 'islands_d
                 'big_islands_10k_plus': 50, 'big_islands_kept_by_under_5_percent_of_their_pixels': 100,
                 'big_islands_kept_by_last_rows_only': 40, 'big_islands_kept_by_first_rows_only': 20,
                 'big_islands_kept_by_last_cols_only': 20, 'big_islands_kept_by_first_cols_only': 20,
-                'finder_big_pairs': 6, 'finder_big_islands_judged': 6, 'finder_big_islands_kept_by_last_rows_only': 1}
+                'finder_big_pairs': 6, 'finder_big_islands_judged': 6, 'finder_big_islands_kept_by_last_rows_only': 1,
+                'offsky_islands_judged': 1000, 'offsky_islands_dropped': 500, 'offsky_islands_kept': 200,
+                'offsky_evals_region_contains_ncp': 200, 'offsky_islands_dropped_while_region_contains_ncp': 300,
+                'offsky_islands_dropped_while_region_contains_scp': 100, 'region_ncp_cap': 100, 'region_scp_cap': 50,
+                'region_whole_sky': 50, 'region_sky_minus_island': 50,
+                'finder_hole_pairs': 12, 'finder_hole_sky_minus_hole': 10, 'finder_hole_complement_tiny_region': 2,
+                'finder_hole_missing_area_below_0.25_deg2': 4, 'finder_hole_runs_with_island_wholly_in_hole': 8,
+                'finder_hole_islands_dropped': 20, 'finder_hole_islands_kept': 40, 'finder_hole_via_object': 4,
+                'finder_hole_via_file': 4, 'finder_hole_via_cli': 4}
 
 E_DEG = 1e-7
 BATCHES_PER_JOB = 1     # importing AegeanTools + oracle self-checks cost ~8 s per worker process
@@ -124,11 +137,24 @@ def copy_pixeldict(region):
 
 
 def cells_of(z, depth, ii, jj):
-    """(cell of the centre, judged flag) for numpy indices ii, jj"""
+    """(cell of the centre, judged flag) for numpy indices ii, jj.  A pixel that has no sky position (beyond the edge of
+    the projection; only for the GridWCS oracle) gets cell -1 and is judged: it is inside no region.  A pixel in the
+    thin band at that edge is unjudged."""
     import healpy as hp
-    ra, dec = z.index2sky(np.asarray(ii, dtype=float), np.asarray(jj, dtype=float))
+    ii = np.asarray(ii, dtype=float)
+    jj = np.asarray(jj, dtype=float)
+    off = None
+    if hasattr(z, 'classify'):
+        off, limb = z.classify(ii, jj)
+    with np.errstate(all='ignore'):
+        ra, dec = z.index2sky(ii, jj)
     ra = np.asarray(ra, dtype=float)
     dec = np.asarray(dec, dtype=float)
+    bad = ~(np.isfinite(ra) & np.isfinite(dec))
+    if bad.any() and off is None:
+        raise RuntimeError('harness: the zenithal oracle produced a non-finite sky position')
+    ra = np.where(bad, 0.0, ra)
+    dec = np.where(bad, 0.0, dec)
     nside = 2 ** depth
     c0 = hp.ang2pix(nside, np.mod(ra, 360.0), dec, nest=True, lonlat=True)
     same = np.ones(c0.shape, dtype=bool)
@@ -136,6 +162,9 @@ def cells_of(z, depth, ii, jj):
     for dra, dde in ((E_DEG / cosd, 0.0), (-E_DEG / cosd, 0.0), (0.0, E_DEG), (0.0, -E_DEG)):
         c = hp.ang2pix(nside, np.mod(ra + dra, 360.0), np.clip(dec + dde, -90, 90), nest=True, lonlat=True)
         same &= (c == c0)
+    if off is not None:
+        c0 = np.where(bad, -1, c0)
+        same = np.where(bad, off, same)
     return c0, same
 
 
@@ -317,6 +346,20 @@ def _hdr_dict(h):
     return dict((k, h[k]) for k in h.keys() if k not in ('SIMPLE', 'COMMENT', 'HISTORY'))
 
 
+def sky_minus_cells(maxdepth, hole_cells):
+    """the whole sky minus the given deepest-level cells, as a compact multi-resolution region (coarse pixels away from
+    the hole), built with Region.add_pixels level by level"""
+    from AegeanTools.regions import Region
+    reg = Region(maxdepth=maxdepth)
+    hole = set(int(c) for c in hole_cells)
+    anc = dict((d, set(c >> (2 * (maxdepth - d)) for c in hole)) for d in range(1, maxdepth + 1))
+    reg.add_pixels([p for p in range(48) if p not in anc[1]], 1)
+    for d in range(2, maxdepth + 1):
+        kids = [4 * p + k for p in sorted(anc[d - 1]) for k in range(4)]
+        reg.add_pixels([c for c in kids if c not in anc[d]], d)
+    return reg
+
+
 def build_region(rng, kind, scene, z, islands_pix, maxdepth):
     """-> Region (built with the subject's own constructors; the oracle reads its pixeldict) or None if the kind is not
     applicable to the scene"""
@@ -326,6 +369,8 @@ def build_region(rng, kind, scene, z, islands_pix, maxdepth):
     reg = Region(maxdepth=maxdepth)
     if kind == 'circle':
         ra, dec = z.index2sky(rng.uniform(-2, rows + 1), rng.uniform(-2, cols + 1))
+        if not (np.isfinite(ra) and np.isfinite(dec)):
+            return None
         rad = float(rng.uniform(1.0, 0.6 * max(rows, cols))) * ps
         reg.add_circles(np.radians(float(ra)), np.radians(float(dec)), np.radians(rad),
                         depth=None if rng.random() < 0.7 else maxdepth - 1)
@@ -349,6 +394,17 @@ def build_region(rng, kind, scene, z, islands_pix, maxdepth):
                         depth=None if rng.random() < 0.5 else max(2, maxdepth - 2))
     elif kind == 'empty':
         pass
+    elif kind in ('ncp_cap', 'scp_cap'):
+        rad = float(rng.uniform(3.0, 35.0))
+        reg.add_circles(0.0, np.radians(90.0 if kind == 'ncp_cap' else -90.0), np.radians(rad))
+    elif kind == 'whole_sky':
+        return sky_minus_cells(maxdepth, [])
+    elif kind == 'sky_minus_island':
+        if not islands_pix:
+            return None
+        pl = sorted(islands_pix[int(rng.integers(0, len(islands_pix)))])
+        c, _ = cells_of(z, maxdepth, [p[0] for p in pl], [p[1] for p in pl])
+        return sky_minus_cells(maxdepth, [int(v) for v in c if v >= 0])
     elif kind.startswith('big_'):
         # only the cells under the pixels of the first / last row(s) / column(s) of the biggest island
         if not islands_pix:
@@ -368,7 +424,7 @@ def build_region(rng, kind, scene, z, islands_pix, maxdepth):
         else:
             raise ValueError(kind)
         c, _ = cells_of(z, maxdepth, [p[0] for p in sel], [p[1] for p in sel])
-        reg.add_pixels(sorted(set(int(v) for v in c)), maxdepth)
+        reg.add_pixels(sorted(set(int(v) for v in c if v >= 0)), maxdepth)
     else:
         if not islands_pix:
             return None
@@ -379,15 +435,17 @@ def build_region(rng, kind, scene, z, islands_pix, maxdepth):
             ext = [min(pl), max(pl), min(pl, key=lambda p: (p[1], p[0])), max(pl, key=lambda p: (p[1], p[0]))]
             p = ext[int(rng.integers(0, 4))]
             c, _ = cells_of(z, maxdepth, [p[0]], [p[1]])
+            if c[0] < 0:
+                return None
             reg.add_pixels([int(c[0])], maxdepth)
         elif kind == 'cells_of_island':
             c, _ = cells_of(z, maxdepth, [p[0] for p in pl], [p[1] for p in pl])
-            reg.add_pixels(sorted(set(int(v) for v in c)), maxdepth)
+            reg.add_pixels(sorted(set(int(v) for v in c if v >= 0)), maxdepth)
         elif kind == 'all_but_island':
             ii, jj = np.indices((rows, cols))
             call, _ = cells_of(z, maxdepth, ii.ravel(), jj.ravel())
             c, _ = cells_of(z, maxdepth, [p[0] for p in pl], [p[1] for p in pl])
-            reg.add_pixels(sorted(set(int(v) for v in call) - set(int(v) for v in c)), maxdepth)
+            reg.add_pixels(sorted(set(int(v) for v in call if v >= 0) - set(int(v) for v in c)), maxdepth)
             if rng.random() < 0.5:
                 reg._renorm()
         else:
@@ -419,6 +477,11 @@ def cases(seed, tier):
     for k in range(32 if tier == 'quick' else 320):
         out.append({'kind': 'big_islands', 'target': BIG_TARGETS[k % len(BIG_TARGETS)], 'n_scenes': 2,
                     'seed': [seed, 'big_islands', k]})
+    for k in range(32 if tier == 'quick' else 320):
+        out.append({'kind': 'offsky', 'n_scenes': 3, 'seed': [seed, 'offsky', k]})
+    for k in range(18 if tier == 'quick' else 72):
+        out.append({'kind': 'finder_hole', 'via': ['object', 'file', 'cli'][k % 3], 'depth': [8, 7, 6, 8, 7, 8][k % 6],
+                    'complement': k % 6 == 4, 'seed': [seed, 'finder_hole', k]})
     for k in range(8 if tier == 'quick' else 32):
         out.append({'kind': 'finder_big', 'side': ['big_last_rows', 'big_first_rows', 'big_last_cols', 'big_first_cols'][k % 4],
                     'seed': [seed, 'finder_big', k]})
@@ -448,6 +511,12 @@ def run(case):
             eval_scene(o, rng, make_big_scene(rng, case['target']), list(BIG_KINDS), distinct)
     elif case['kind'] == 'finder_big':
         finder_big_case(o, case, distinct)
+    elif case['kind'] == 'finder_hole':
+        finder_hole_case(o, case, distinct)
+    elif case['kind'] == 'offsky':
+        rng = rng_for(*case['seed'])
+        for _ in range(case['n_scenes']):
+            eval_scene(o, rng, make_offsky_scene(rng), list(OFFSKY_KINDS), distinct)
     o.n_nontrivial = len(distinct)
     return o.result()
 
@@ -499,7 +568,8 @@ def eval_scene(o, rng, scene, kinds, distinct):
     from AegeanTools.source_finder import find_islands
     from AegeanTools.wcs_helpers import WCSHelper
     hdr = scene['header']
-    z = wcs_zenithal.ZenithalWCS(hdr)
+    z = scene.get('grid') or wcs_zenithal.ZenithalWCS(hdr)
+    offmap = scene.get('offsky')
     im, bkg, rms = scene['im'], scene['bkg'], scene['rms']
     seed, flood = 5.0, 4.0
     helper = WCSHelper.from_header(hdr)
@@ -531,6 +601,11 @@ def eval_scene(o, rng, scene, kinds, distinct):
             ii, jj = np.indices(shape)
             cellmaps[reg.maxdepth] = cells_of(z, reg.maxdepth, ii, jj)
         mem = Membership(z, shape, reg.maxdepth, cells, cellmaps[reg.maxdepth])
+        import healpy as hp
+        has_ncp = bool(np.isin(hp.ang2pix(2 ** reg.maxdepth, 0.0, 90.0, nest=True, lonlat=True), cells))
+        has_scp = bool(np.isin(hp.ang2pix(2 ** reg.maxdepth, 0.0, -90.0, nest=True, lonlat=True), cells))
+        if offmap is not None and has_ncp:
+            o.count('offsky_evals_region_contains_ncp')
         o.count('pixels_judged', int(mem.judged.sum()))
         o.count('pixels_unjudged', int((~mem.judged).sum()))
         o.count('region_' + kind)
@@ -552,7 +627,7 @@ def eval_scene(o, rng, scene, kinds, distinct):
         if 'CD1_1' in hdr:
             o.count('restricted_calls_cd_matrix')
         # the region must not have been changed as a set by being queried
-        if not np.array_equal(region_cells(copy_pixeldict(reg), reg.maxdepth), cells):
+        if cells.size < 300000 and not np.array_equal(region_cells(copy_pixeldict(reg), reg.maxdepth), cells):
             raise RuntimeError('harness: the region changed while being queried')
         rpix = [island_pixels(i) for i in res]
         if any(p is None for p in rpix):
@@ -578,6 +653,16 @@ def eval_scene(o, rng, scene, kinds, distinct):
                 o.count('elongated_islands_judged')
             if len(p) > 1024:
                 _count_big(o, p, st, mem, 'big_')
+            if offmap is not None:
+                n_off = sum(1 for q in p if offmap[q])
+                if n_off:
+                    o.count('offsky_islands_judged')
+                    o.count('offsky_pixels_in_judged_islands', n_off)
+                    o.count('offsky_islands_kept' if st == 'keep' else 'offsky_islands_dropped')
+                    if st == 'drop' and has_ncp:
+                        o.count('offsky_islands_dropped_while_region_contains_ncp')
+                    if st == 'drop' and has_scp:
+                        o.count('offsky_islands_dropped_while_region_contains_scp')
             if st == 'keep':
                 n_keep += 1
                 o.count('islands_kept')
@@ -608,7 +693,7 @@ def eval_scene(o, rng, scene, kinds, distinct):
         o.worst('unjudged_pixel_fraction', float((~mem.judged).mean()))
         o.see('depth', int(reg.maxdepth))
     o.see('projection', str(hdr['CTYPE1'])[-3:])
-    o.sample = {'shape': list(shape), 'depth': depth, 'cell_over_pixel': round(scene['ratio'], 3),
+    o.sample = {'shape': list(shape), 'depth': depth, 'cell_over_pixel': None if scene['ratio'] is None else round(scene['ratio'], 3),
                 'unrestricted_islands': len(upix), 'last_region_kind': kinds[-1] if kinds else None}
 
 
@@ -698,6 +783,76 @@ def make_big_scene(rng, target):
     return {'rows': rows, 'cols': cols, 'depth': depth, 'ratio': ratio, 'pixscale': ps, 'header': hdr,
             'im': level.copy(), 'bkg': np.zeros((rows, cols)), 'rms': np.ones((rows, cols)), 'big_shape': shape_kind}
 
+
+def make_offsky_scene(rng):
+    """an image whose pixel grid partly falls off the projection (all-sky AIT / MOL, SIN beyond the horizon, ZEA and ARC
+    beyond the antipode), islands on the rim of the sky (they contain pixels with no sky position), a few inside"""
+    from astropy.wcs import WCS
+    from aegmon.props import c10
+    proj = str(rng.choice(['AIT', 'MOL', 'SIN', 'SIN', 'ZEA', 'ARC']))
+    if proj in ('AIT', 'MOL'):
+        ps = float(rng.uniform(1.6, 3.0))
+        hx, hy = (162.1, 81.1) if proj == 'AIT' else (162.1, 81.1)
+        rows, cols = int(2 * hy / ps) + 8, int(2 * hx / ps) + 10
+        crval = (float(rng.choice([rng.uniform(0, 360), 0.0, 180.0])), 0.0)
+    else:
+        lim = {'SIN': 57.3, 'ZEA': 114.6, 'ARC': 180.0}[proj]
+        ps = float(rng.uniform(1.6, 3.0)) * lim / 57.3
+        rows, cols = int(2 * lim / ps) + 8, int(2 * lim / ps) + 13
+        crval = (float(rng.uniform(0, 360)), float(rng.choice([rng.uniform(-80, 80), 60.0, 85.0, -70.0])))
+    crpix = (cols / 2.0 + float(rng.uniform(-2, 2)), rows / 2.0 + float(rng.uniform(-2, 2)))
+    geom = {'proj': proj, 'crval': crval, 'crpix': crpix, 'cdelt': (-ps, ps), 'shape': (rows, cols), 'use_cd': False}
+    grid = c10.GridWCS(geom)
+    hdr = c10._header(geom)
+    hdr['BMAJ'], hdr['BMIN'], hdr['BPA'] = 3 * ps, 2 * ps, 0.0
+    import warnings
+    with warnings.catch_warnings():
+        warnings.simplefilter('ignore')
+        c10._crosscheck_wcs(grid, WCS(hdr, naxis=2), (rows, cols), rng)
+    ii, jj = np.indices((rows, cols))
+    off, limb = grid.classify(ii, jj)
+    on = ~off & ~limb
+    near_off = np.zeros_like(off)
+    near_off[1:, :] |= off[:-1, :]
+    near_off[:-1, :] |= off[1:, :]
+    near_off[:, 1:] |= off[:, :-1]
+    near_off[:, :-1] |= off[:, 1:]
+    rim_r, rim_c = np.where(on & near_off)
+    level = np.zeros((rows, cols))
+
+    def paint(r0, c0):
+        k = int(rng.integers(0, 3))
+        pts = [(0, 0), (0, 1), (1, 0), (0, -1), (-1, 0)] if k == 0 else (
+            [(0, d) for d in range(-3, 4)] if k == 1 else [(d, 0) for d in range(-3, 4)])
+        first = True
+        for dr, dc in pts:
+            r, c = r0 + dr, c0 + dc
+            if 0 <= r < rows and 0 <= c < cols:
+                level[r, c] = S if first else F
+                first = False
+
+    if len(rim_r):
+        for _ in range(int(rng.integers(4, 10))):
+            k = int(rng.integers(0, len(rim_r)))
+            paint(int(rim_r[k]), int(rim_c[k]))
+    on_r, on_c = np.where(on)
+    for _ in range(int(rng.integers(2, 6))):
+        k = int(rng.integers(0, len(on_r)))
+        paint(int(on_r[k]), int(on_c[k]))
+    # one island at the pixel nearest to each celestial pole that is on the image
+    with np.errstate(all='ignore'):
+        ra, dec = grid.index2sky(ii, jj)
+    for pole in (90.0, -90.0):
+        d = np.where(np.isfinite(dec), np.abs(dec - pole), np.inf)
+        if np.isfinite(d.min()) and d.min() < 3 * ps:
+            r, c = np.unravel_index(int(np.argmin(d)), d.shape)
+            paint(int(r), int(c))
+    return {'rows': rows, 'cols': cols, 'depth': int(rng.integers(4, 7)), 'ratio': None, 'pixscale': ps, 'header': hdr,
+            'im': level.copy(), 'bkg': np.zeros((rows, cols)), 'rms': np.ones((rows, cols)), 'grid': grid, 'offsky': off}
+
+
+OFFSKY_KINDS = ['ncp_cap', 'ncp_cap', 'scp_cap', 'whole_sky', 'sky_minus_island', 'cells_of_island', 'end_pixel_cell',
+                'circle', 'empty']
 
 BIG_TARGETS = (1100, 1500, 2100, 3000, 4200, 6500, 10500, 14000)
 BIG_KINDS = ['big_first_rows', 'big_last_rows', 'big_first_cols', 'big_last_cols', 'big_last_rows', 'circle', 'whole', 'empty']
@@ -1142,3 +1297,109 @@ def finder_big_case(o, case, distinct):
         distinct.add(hash((data32.tobytes(), cells.tobytes())))
     o.sample = {'shape': [rows, cols], 'region_kind': kind, 'island_sizes': sorted(len(p) for p in upix),
                 'restricted_islands': len(rcalls), 'kept': nk, 'dropped': nd}
+
+
+# ----------------------------------------------------------------------------- near-extreme regions through the finder
+def finder_hole_case(o, case, distinct):
+    """find_sources_in_image(mask=Region | .mim file) and `aegean --region` with a region that is the whole sky minus a
+    small hole (the HEALPix cells under one or two islands; 0.05 ... 3 deg^2 at depths 6-8), or its complement (only
+    those cells).  Islands wholly inside the hole are not to be reported; everything else is, unchanged."""
+    from astropy.io import fits
+    from AegeanTools import source_finder as sf_mod
+    from AegeanTools.models import ComponentSource
+    from aegmon.refs import render
+    rng = rng_for(*case['seed'])
+    rows, cols = int(rng.integers(60, 90)), int(rng.integers(90, 130))
+    if rng.random() < 0.3:
+        rows, cols = cols, rows
+    depth = int(case['depth'])
+    cell = 58.6323 / 2 ** depth
+    ratio = float(rng.uniform(10, 36))              # cells much larger than pixels: a cell can hold whole islands
+    pix = cell / ratio
+    beam = (float(rng.uniform(2.6, 3.6)) * pix, float(rng.uniform(1.9, 2.4)) * pix, float(rng.uniform(-90, 90)))
+    hdr = wcs_zenithal.make_header(proj=str(rng.choice(['SIN', 'TAN', 'ZEA'])),
+                                   crval=(float(rng.choice([rng.uniform(0, 360), -1.0])), float(rng.uniform(-70, 70))),
+                                   crpix=(float(rng.uniform(0, cols)), float(rng.uniform(0, rows))), cdelt=(-pix, pix),
+                                   shape=(rows, cols), beam=beam)
+    z = wcs_zenithal.ZenithalWCS(hdr)
+    sigma = 1.0
+    srcs = []
+    for _ in range(int(rng.integers(8, 15))):
+        ra, dec = z.index2sky(rng.uniform(2, rows - 3), rng.uniform(2, cols - 3))
+        srcs.append({'ra': float(ra), 'dec': float(dec), 'peak': float(sigma * rng.uniform(8, 50) * rng.choice([1, 1, 1, -1])),
+                     'a': beam[0] * 3600 * float(rng.choice([1.0, 1.0, 2.0])), 'b': beam[1] * 3600,
+                     'pa': float(rng.uniform(-90, 90))})
+    img = render.render(z, (rows, cols), srcs)
+    img += render.correlated_noise(rng, (rows, cols), sigma, (beam[0] / pix / 2.355, beam[1] / pix / 2.355), beam[2])
+    data32 = img.astype(np.float32)
+    inner, outer = 5.0, 4.0
+    via = case['via']
+    names = [n for n in ComponentSource.names]
+    d = scratch_dir()
+    try:
+        fn = os.path.join(d, 'img.fits')
+        fits.PrimaryHDU(data=data32, header=hdr).writeto(fn)
+        try:
+            if via == 'cli':
+                ucalls, usrcs, rc = _run_cli(sf_mod, fn, sigma, inner, outer, None, os.path.join(d, 'unres'))
+            else:
+                ucalls, usrcs = _run_finder(sf_mod, fn, sigma, inner, outer, None)
+        except Exception:
+            o.violate('raises', {'where': 'unrestricted run', 'case': case, 'traceback': traceback.format_exc()[-800:]})
+            return
+        upix = [c[1] for c in ucalls]
+        if not upix:
+            raise RuntimeError('harness: no island in a finder_hole field')
+        hole = set()
+        for k in rng.choice(len(upix), size=min(len(upix), int(rng.integers(1, 3))), replace=False):
+            pl = sorted(upix[int(k)])
+            c, _ = cells_of(z, depth, [p[0] for p in pl], [p[1] for p in pl])
+            hole.update(int(v) for v in c)
+        if case['complement']:
+            from AegeanTools.regions import Region
+            reg = Region(maxdepth=depth)
+            reg.add_pixels(sorted(hole), depth)
+        else:
+            reg = sky_minus_cells(depth, hole)
+        area = float(reg.get_area())
+        cells = region_cells(copy_pixeldict(reg), reg.maxdepth)
+        mem = Membership(z, (rows, cols), reg.maxdepth, cells)
+        if via in ('file', 'cli'):
+            mask = os.path.join(d, 'region.mim')
+            reg.save(mask)
+        else:
+            mask = reg
+        try:
+            if via == 'cli':
+                rcalls, rsrcs, rc = _run_cli(sf_mod, fn, sigma, inner, outer, mask, os.path.join(d, 'res'))
+                names = [n for n in names if hasattr(usrcs[0], n)] if usrcs else names
+            else:
+                rcalls, rsrcs = _run_finder(sf_mod, fn, sigma, inner, outer, mask)
+        except Exception:
+            o.violate('raises', {'where': 'restricted run', 'case': case, 'traceback': traceback.format_exc()[-800:]})
+            return
+    finally:
+        shutil.rmtree(d, ignore_errors=True)
+    o.n_eval += 1
+    allsky = 4 * 180.0 ** 2 / np.pi
+    gap = allsky - area
+    o.count('finder_hole_pairs')
+    o.count('finder_hole_via_' + via)
+    o.count('finder_hole_depth_%d' % depth)
+    if case['complement']:
+        o.count('finder_hole_complement_tiny_region')
+        o.worst('tiny_region_smallest_area_deg2_negated', -area)
+    else:
+        o.count('finder_hole_sky_minus_hole')
+        o.count('finder_hole_missing_area_below_0.25_deg2' if gap < 0.25 else (
+            'finder_hole_missing_area_0.25_to_1_deg2' if gap < 1.0 else 'finder_hole_missing_area_above_1_deg2'))
+    o.see('hole_area_deg2', round(gap if not case['complement'] else area, 3))
+    wit = {'case': case, 'depth': depth, 'shape': [rows, cols], 'region_area_deg2': area, 'sky_minus_region_deg2': gap,
+           'hole_cells': sorted(hole)[:20], 'via': via}
+    nk, nd = compare_catalogues(o, wit, mem, ucalls, usrcs, rcalls, rsrcs, names, prefix='finder_hole_')
+    if not case['complement'] and nd:
+        o.count('finder_hole_runs_with_island_wholly_in_hole')
+    if nk + nd:
+        distinct.add(hash((data32.tobytes(), cells.tobytes())))
+    o.sample = {'shape': [rows, cols], 'depth': depth, 'via': via, 'complement': case['complement'],
+                'region_area_deg2': area, 'islands': len(ucalls), 'kept': nk, 'dropped': nd}
